@@ -422,6 +422,7 @@ impl BytecodeBuilder {
                 | Op::ExportBinding { .. }
                 | Op::ExportNamespace { .. }
                 | Op::ReExport { .. }
+                | Op::ReExportAll { .. }
                 | Op::SetFunctionName { .. }
                 | Op::PopIterTry
                 | Op::IteratorClose { .. } => {}
